@@ -1,4 +1,5 @@
 import Utv.Lemmas.C14Struct
+import Utv.Lemmas.C14P0
 /-!
 C14 — JSON encoding round-trips through the parser.
 
@@ -388,5 +389,54 @@ theorem C14_dec_tiny_legacy_witness (P : Prims) (h0 : (P.floatOfDec (.fin false 
   · simp [encode, fromDecimal, hu, Cfg.legacy]
   · simp [parse, toDecimal, h0]
   · simp [encode, fromDecimal, hu, ht, Cfg.fixed]
+
+
+def Res.isPerr {α : Type} : Res α → Bool
+  | .perr => true
+  | _ => false
+
+def Res.isOkWith {α : Type} (p : α → Bool) : Res α → Bool
+  | .ok a => p a
+  | _ => false
+
+def nyWinter : DateTime := ⟨⟨2020, 1, 2⟩, ⟨3, 4, 5, 0⟩, some (-18000000000)⟩     -- 2020-01-02T03:04:05-05:00
+
+/-- a datetime with a negative UTC offset: `invalid datetime` before the repair (`'+' in data` was the only
+offset detector), parsed back after it (concrete builtins `P0`). -/
+theorem C14_negative_offset_legacy_witness :
+    (parse Cfg.legacy P0 .datetime (.str (isoDateTime nyWinter))).isPerr = true
+      ∧ (parse Cfg.fixed P0 .datetime (.str (isoDateTime nyWinter))).isOkWith (fun y => y.beq (.datetime nyWinter)) = true := by
+  constructor <;> decide +kernel
+
+def teaTime : TimeV := ⟨⟨3, 4, 5, 123000⟩, some 7200000000⟩                     -- 03:04:05.123+02:00
+
+/-- an aware time with milliseconds: the old `r[:12]` cut the offset off, so the value came back naive. -/
+theorem C14_time_tz_legacy_witness :
+    fromTime Cfg.legacy teaTime = "03:04:05.123".toList
+      ∧ (parse Cfg.legacy P0 .time (.str (fromTime Cfg.legacy teaTime))).isOkWith
+          (fun y => y.beq (.time ⟨teaTime.clock, none⟩)) = true
+      ∧ (parse Cfg.fixed P0 .time (.str (fromTime Cfg.fixed teaTime))).isOkWith (fun y => y.beq (.time teaTime)) = true := by
+  refine ⟨by decide +kernel, by decide +kernel, by decide +kernel⟩
+
+/-! ### non-vacuity -/
+
+/-- the hypotheses of the theorems are satisfiable: `P0` is lawful … -/
+theorem C14_primlaws_P0 : PrimLaws P0 := primLaws_P0
+
+/-- … so the round trip holds outright for the concrete builtins -/
+theorem C14_roundtrip_P0 (fs : List (Str × Ty)) (x : Val)
+    (hd : inDomain Cfg.fixed (.data fs) x = true) (hk : (Ty.data fs).setOfContainers = false) :
+    ∃ j y, encode Cfg.fixed P0 x = .ok j ∧ parseText Cfg.fixed P0 fs (P0.jsonDumps j) = .ok y ∧ y.canon = x.canon :=
+  C14_roundtrip_text_partial P0 primLaws_P0 fs x hd hk
+
+/-- … and the domain is inhabited by an instance with a negative offset, a negative microsecond duration,
+a tiny Decimal, an aware millisecond time, an enum whose value is another member's name, nested in containers -/
+example : ∃ fs x, inDomain Cfg.fixed (.data fs) x = true ∧ (Ty.data fs).setOfContainers = false ∧ x.hasInf = false :=
+  ⟨[("a".toList, .datetime), ("b".toList, .list .delta), ("c".toList, .dict .int .dec), ("d".toList, .set .time),
+    ("e".toList, .tuple [.enum shadowEnum, .data [("n".toList, .none)]])],
+   .data [("a".toList, .datetime nyWinter), ("b".toList, .list [.delta (-90061000005)]),
+    ("c".toList, .dict [(.int (-7), .dec (.fin false 1 (-400)))]), ("d".toList, .set [.time teaTime]),
+    ("e".toList, .tuple [.enum shadowEnum 0, .data [("n".toList, .none)]])],
+   by decide +kernel, by decide +kernel, by decide +kernel⟩
 
 end Utv.C14
